@@ -24,7 +24,7 @@ Json Cmd::toJson() const {
   Json e = Json::arr();
   for (auto& kv : env) e.push(Json::obj().set("k", util::hex(kv.first)).set("v", util::hex(kv.second)));
   j.set("env", e).set("extra", strList(extra)).setb("always", always).setb("inherit_env", inheritEnv).setb("safe_interrupt", safeInterrupt);
-  j.setb("allow_missing", allowMissing).set("signature", util::hex(signature)).set("contents", util::hex(contents));
+  j.setb("allow_modified", allowModified).setb("allow_missing", allowMissing).set("signature", util::hex(signature)).set("contents", util::hex(contents));
   j.set("expected", strList(expected)).set("roots", strList(roots)).set("pad", strList(pad)).set("workdir", util::hex(workdir));
   return j;
 }
@@ -44,6 +44,7 @@ Cmd Cmd::fromJson(const Json& j) {
   c.inheritEnv = j.getb("inherit_env", true);
   c.safeInterrupt = j.getb("safe_interrupt", true);
   c.allowMissing = j.getb("allow_missing");
+  c.allowModified = j.getb("allow_modified");
   c.signature = util::unhex(j.gets("signature"));
   c.contents = util::unhex(j.gets("contents"));
   c.expected = listStr(j.geta("expected"));
@@ -94,6 +95,7 @@ uint64_t Cmd::definitionHash() const {
   }
   h.u64(always);
   h.u64(allowMissing);
+  h.u64(allowModified);
   h.str(contents);
   for (auto& s : expected) h.str(s);
   for (auto& s : roots) h.str(s);
@@ -243,6 +245,7 @@ std::string Desc::toYaml() const {
       if (!c.workdir.empty()) y += "    working-directory: " + yamlQuote(c.workdir) + "\n";
       if (c.always) y += "    always-out-of-date: \"true\"\n";
       if (c.allowMissing) y += "    allow-missing-inputs: \"true\"\n";
+      if (c.allowModified) y += "    allow-modified-outputs: \"true\"\n";
     } else if (c.tool == "symlink") {
       y += "    contents: " + yamlQuote(c.contents) + "\n";
     } else if (c.tool == "stale-file-removal") {
